@@ -267,6 +267,13 @@ Example C14_iterator_enumerates_ex :
   expected_members (JArr [JNull; JI64 7]) = [(None, 0, Some JNull); (None, 1, Some (JI64 7))].
 Proof. split; vm_compute; reflexivity. Qed.
 
+(* jbl_size of the binary form of v is the length of its buffer, the size `enc_size v` of the guard (the value the library reports
+   once the header has been written; before that a writable document reported a stale size - round 7, notes/jbinn.md) *)
+Theorem C14_size : forall v bs, wf v = true -> binn_encode v = Some bs ->
+  exists b, root_bval bs = Some b /\ jbl_size b = zlen bs /\ zlen bs = enc_size v.
+Proof. exact size_doc. Qed.
+Print Assumptions C14_size.
+
 (* the same for every value reached inside the document (`repr v b`: b is what GetValue reads at an encoding of v) *)
 Theorem C14_type_count : forall v b, repr v b ->
   jbl_type b = jval_type v /\ jbl_count b = match v with JArr l => zlen l | JObj ms => zlen ms | _ => 0 end.
